@@ -141,7 +141,9 @@ def run_name_case(params, st, keep_log=False):
                 if isinstance(part, np.ndarray) and part.size and part.flags.writeable:
                     part[...] = part[::-1] * 0.5 + 1.0
             expected = bundled_expected(name) if bundled else (ds.expected if ds is not None else None)
-            for again_unpack in (True, False):
+            # ... and again after every later answer has been modified too: a library that memoises what it read and
+            # hands out views of the memo on one of its paths is only exposed by the load AFTER that one
+            for again_unpack in (True, False, True, False):
                 b = run.spawn_loader(_raw(spelled, again_unpack), role="again")
                 run.sim.run(on_step=run.on_step, step_cap=run.sim.step + 400)
                 w2 = f"load_dataset({spelled!r}, unpack_dataset_columns={again_unpack}) after the caller modified, in place, " \
@@ -151,6 +153,9 @@ def run_name_case(params, st, keep_log=False):
                 well_formed(run, b.result, again_unpack, expected, key, w2)
                 if bundled and b.attrs.get("net_calls", 0):
                     run.fail("bundled-used-network", key, f"{w2}: network call")
+                for part in (b.result if isinstance(b.result, tuple) else (b.result,)):
+                    if isinstance(part, np.ndarray) and part.size and part.flags.writeable:
+                        part[...] = part[::-1] * 0.25 - 3.0
             a.result = scn.pop("first_result")
             return
         if isinstance(a.exc, ValueError) and "No such dataset" in str(a.exc):
